@@ -474,6 +474,12 @@ func (x *c19Exe) judgeNonOwnerDeletes(sc *c19Scenario, tr *c19Truth, results []c
 			continue
 		}
 		x.run.Count("nonowner_deletes", 1)
+		if r.Faulted {
+			// the result of a call hit by a storage fault carries no obligation; its
+			// EFFECT is still judged (the owner must keep the name)
+			x.run.Count("nonowner_deletes_faulted", 1)
+			continue
+		}
 		if r.OK && !ownerDeleted[r.ID] {
 			x.violation("non-owner-delete-succeeded", sc, tr, trace, results, map[string]any{"delete": r})
 		} else if !r.OK {
@@ -1114,4 +1120,120 @@ func TestVerifC19HostSpellings(t *testing.T) {
 	run.Floor("lookups_routed", 300)
 	run.Floor("routed_class_port65535", 20)
 	run.Floor("lookups_of_nonrouting_names", 50)
+}
+
+// ---------------------------------------------------------------- monitor 4: single storage faults
+
+// c19FaultHook makes the pos-th storage-tier operation (0-based, counted over all
+// tiers while armed) fail once with vk.ErrInjected.
+type c19FaultHook struct {
+	armed bool
+	pos   int
+	n     int
+	fired string // tier.op:key of the failed operation
+}
+
+func (f *c19FaultHook) hook(tier, op, key string) error {
+	if !f.armed {
+		return nil
+	}
+	i := f.n
+	f.n++
+	if i == f.pos && f.fired == "" {
+		f.fired = tier + "." + op + ":" + key
+		return vk.ErrInjected
+	}
+	return nil
+}
+
+func TestVerifC19Faults(t *testing.T) {
+	vk.Quiet()
+	run := vk.Start(t, "C19", "faults")
+	defer run.Finish()
+	run.Rule("single-fault enumeration: for every store kind and every scenario (claim of a FREE name, claim of a name OWNED by another client — same and other node —, owner delete, non-owner delete, owner update, claim after delete) the call is repeated in fresh worlds with its 0th, 1st, 2nd … storage-tier operation failing once (until the call makes fewer operations); then the caller retries without fault and the owner-table audit runs with obligations only from calls that returned success and were not hit by the fault (a failed claim must not change anybody's ownership); distinct = store|scenario|failed operation|call outcome")
+	rd := c19StartRedis(t)
+	x := &c19Exe{run: run, t: t, rd: rd}
+	b0 := c19Bases[0]
+	type fsc struct {
+		name  string
+		setup []c19Op
+		op    c19Op
+		retry bool
+	}
+	scs := []fsc{
+		{"claim-free-name", []c19Op{c19Create(101, "other", b0)}, c19Create(102, "app", b0), true},
+		{"claim-owned-name", []c19Op{c19Create(101, "app", b0)}, c19Create(102, "app", b0), true},
+		{"claim-owned-name-other-node", []c19Op{c19Create(101, "app", b0)}, c19Op{K: "create", C: 102, Sub: "app", Base: b0, Node: 1}, true},
+		{"claim-owned-paused-name", []c19Op{c19Create(101, "app", b0), {K: "update", C: 101, Ref: 0, Upd: "inactive"}}, c19Create(102, "app", b0), true},
+		{"owner-delete", []c19Op{c19Create(101, "app", b0), c19Create(103, "api", b0)}, c19Delete(101, 0), false},
+		{"nonowner-delete", []c19Op{c19Create(101, "app", b0)}, c19Op{K: "delete", C: 102, Ref: 0, Node: 1}, true},
+		{"owner-update", []c19Op{c19Create(101, "app", b0)}, c19Op{K: "update", C: 101, Ref: 0, Upd: "future"}, false},
+		{"claim-after-delete", []c19Op{c19Create(101, "app", b0), c19Delete(101, 0)}, c19Create(102, "app", b0), true},
+	}
+	reps := 1 // the enumeration is exhaustive and deterministic
+	for rep := 0; rep < reps; rep++ {
+		for _, kind := range c19Kinds {
+			for _, f := range scs {
+				for pos := 0; pos < 40 && !x.stop; pos++ {
+					sc := &c19Scenario{Family: "fault:" + f.name, Kind: kind}
+					sc.Setup = append(append([]c19Op(nil), f.setup...), f.op)
+					if f.retry {
+						sc.Setup = append(sc.Setup, f.op)
+					}
+					sc.number()
+					run.Case(fmt.Sprintf("fault|%s|%s|pos=%d", kind, f.name, pos), sc)
+					w := c19NewWorld(t, kind, rd, c19WorldOpts{})
+					fh := &c19FaultHook{pos: pos}
+					w.SetHook(fh.hook)
+					var results []c19Res
+					for i, op := range sc.Setup {
+						faulted := i == len(f.setup)
+						fh.armed = faulted
+						r := c19Exec(w, op, results)
+						fh.armed = false
+						if faulted && fh.fired != "" {
+							r.Faulted = true
+						}
+						results = append(results, r)
+					}
+					w.SetHook(nil)
+					run.Eval(1)
+					if fh.fired == "" {
+						w.Close()
+						break // the call makes fewer than pos+1 storage operations
+					}
+					fr := results[len(f.setup)]
+					run.Count("faults_fired", 1)
+					run.Count("faults_fired_"+f.name, 1)
+					outcome := "error"
+					if fr.OK {
+						outcome = "ok"
+						run.Count("faulted_calls_returned_ok", 1)
+					} else if !fr.Ran {
+						outcome = "skipped"
+					} else {
+						run.Count("faulted_calls_returned_error", 1)
+						if strings.HasPrefix(f.name, "claim-owned") {
+							run.Count("faulted_claims_of_owned_names_failed", 1)
+						}
+					}
+					fired := fh.fired
+					if i := strings.Index(fired, "hdm_"); i >= 0 {
+						fired = fired[:i] + "hdm_N"
+					}
+					run.Distinct(kind + "|" + f.name + "|" + fired + "|" + outcome)
+					if pos == 1 && rep == 0 && kind == "hybrid-redis" {
+						run.Sample(map[string]any{"store": kind, "scenario": f.name, "failed_operation": fh.fired, "results": results})
+					}
+					x.judge(sc, w, results, []string{"fault@" + fh.fired})
+					w.Close()
+				}
+			}
+		}
+	}
+	run.Floor("faults_fired", 100)
+	run.Floor("faulted_claims_of_owned_names_failed", 20)
+	run.Floor("faults_fired_owner-delete", 12)
+	run.Floor("followup_claim_on_owned_name_refused", 100)
+	run.Exhaustive(true)
 }
